@@ -9,20 +9,26 @@ Definition hbh_is_valid (p : slice) : bool :=
   else if Nat.ltb (len p) (N.to_nat (nth 1 (arr p) 0) * 8 + 8 + 2) then false
   else true.
 
-(* one option of the loop body (:124-160): new position or error *)
+(* one option of the loop body (as repaired: RFC 8200 4.2, the option type is the whole octet):
+   new position or error *)
 Definition hbh_option (buffer : slice) (pos : nat) : res nat :=
-  (b0 <- idx buffer 0 ;;
-   let t := N.land b0 31 in
-   if t =? 0 then Ok (pos + 1)%nat
-   else if t =? 1 then
+  (t <- idx buffer 0 ;;
+   if t =? 0 then Ok (pos + 1)%nat                                   (* Pad1 *)
+   else if t =? 1 then                                               (* PadN *)
      (if Nat.ltb (len buffer) 2 then Err EParseFrame
       else b1 <- idx buffer 1 ;; Ok (pos + N.to_nat b1 + 2)%nat)
-   else if t =? 5 then
+   else if t =? 5 then                                               (* router alert: length 2 *)
      (if Nat.ltb (len buffer) 4 then Err EParseFrame
-      else _ <- sl buffer 2 4 ;; Ok (pos + 4)%nat)
-   else if t =? 194 then Ok (pos + 4)%nat   (* unreachable: t <= 31 *)
-   else
+      else b1 <- idx buffer 1 ;;
+           if negb (b1 =? 2) then Err EParseFrame
+           else _ <- sl buffer 2 4 ;; Ok (pos + 4)%nat)
+   else if t =? 194 then                                             (* jumbo payload: length 4 *)
+     (if Nat.ltb (len buffer) 6 then Err EParseFrame
+      else b1 <- idx buffer 1 ;;
+           if negb (b1 =? 4) then Err EParseFrame else Ok (pos + 6)%nat)
+   else                                                              (* unrecognised option *)
      (if Nat.ltb (len buffer) 2 then Err EParseFrame
+      else if negb (N.shiftr t 6 =? 0) then Err EParseFrame           (* action bits: discard *)
       else b1 <- idx buffer 1 ;; Ok (pos + N.to_nat b1 + 2)%nat))%res.
 
 Fixpoint hbh_loop (fuel : nat) (data : slice) (pos : nat) : res unit :=
@@ -33,7 +39,8 @@ Fixpoint hbh_loop (fuel : nat) (data : slice) (pos : nat) : res unit :=
        if Nat.ltb (len buffer) 1 then Err EParseFrame
        else
          pos' <- hbh_option buffer pos ;;
-         if Nat.leb (len data) pos' then Ok tt
+         if Nat.ltb (len data) pos' then Err EParseFrame          (* the option runs past the area *)
+         else if Nat.eqb pos' (len data) then Ok tt
          else hbh_loop f data pos')%res
   end.
 
